@@ -388,6 +388,10 @@ pub fn gen_faults(rng: &mut Rng, out_len: usize, starts: &[usize], allow_hard: b
             // the writer refuses data for good from here on (a full disk, a closed console)
             times = PERSISTENT;
         }
+        if kind == FaultKind::Interrupted && rng.chance(1, 8) {
+            // an interruption storm: many EINTRs in a row at the same spot (retry loops that count)
+            times = *rng.pick(&[16u32, 64, 65, 127, 128, 129, 300, 1000]);
+        }
         v.push(Fault { at, kind, times });
         // cooperating faults: a short write directly followed by an interruption (or another
         // fault) at the offset it leaves the writer at - retry loops that restart see this
